@@ -8,7 +8,7 @@ from __future__ import annotations
 import itertools
 
 from sa.harness import H, show
-from sa.ae import UserStr, Seq, DictV, SymStr, SAtom, Obj, Unknown, ClassV, Callback, mkstr
+from sa.ae import UserStr, Seq, DictV, SymStr, SAtom, Obj, Unknown, Raised, ClassV, Callback, mkstr
 from rules import common
 from rules.c16 import split_lines
 
@@ -48,6 +48,8 @@ SCENARIOS = {
     "title-format-property": (["a", "b"], [], [("DirectedEdge", "a", "b"), ("UnDirectedEdge", "b", "b")], {}, "title-format-property"),
     "subclass-with-its-own-title": (["a", "b", "c"], [], [("DirectedEdge", "b", "a"), ("DirectedEdge", "a", "b"), ("UnDirectedEdge", "c", "a"), ("DirectedEdge", "a", "a")], {"a": "SymVert", "c": "SymVert"}, "subclass-title"),
     "title-format-with-empty-show-attrs": (["a", "b"], [], [("DirectedEdge", "a", "b")], {}, "title-format-empty-show-attrs"),
+    # the title is formatted from an attribute whose value is callable (a class, a function): {tag.__name__}_{name}
+    "title-format-from-a-callable-attribute": (["a", "b"], [], [("DirectedEdge", "a", "b"), ("UnDirectedEdge", "b", "a")], {}, "title-format-callable"),
     # the links themselves belong to a universe of their own (links are graph objects too); they still join two members of U
     "links-in-another-universe": (["a", "b", "c"], [], [("DirectedEdge", "a", "b"), ("UnDirectedEdge", "b", "c"), ("DirectedEdge", "c", "c")], {}, "default"),
     "falsy-vertices": (["a", "b", "c"], [], [("DirectedEdge", "a", "b"), ("UnDirectedEdge", "c", "a"), ("DirectedEdge", "c", "c")], {"a": "FalsyV", "c": "FalsyV"}, "default"),
@@ -97,6 +99,14 @@ def options(h, g, variant):
                         p[1] = "T_{name}"
                     if p[0] == "show_attrs":
                         p[1] = Seq([], "list")
+    elif variant == "title-format-callable":
+        for k, v in opts.pairs:
+            if k is g["Vertex"]:
+                for p in v.pairs:
+                    if p[0] == "title_format":
+                        p[1] = "{tag.__name__}_{name}"
+                    if p[0] == "show_attrs":
+                        p[1] = Seq(["name", "tag"], "list")
     elif variant == "title-format-property":
         # the title is formatted from an attribute that is a property of the class (uid), not a dynamic instance attribute
         for k, v in opts.pairs:
@@ -153,7 +163,7 @@ def run(ctx):
             g.update({k: h.S[k] for k in ("Vertex", "DirectedEdge", "UnDirectedEdge")})
             V = {}
             for v in members + outside:
-                V[v] = h.I.call(g[vclasses.get(v, "Vertex")], [], {"attributes": DictV([["name", v]])})
+                V[v] = h.I.call(g[vclasses.get(v, "Vertex")], [], {"attributes": DictV([["name", v]] + ([["tag", g["DirectedEdge"]]] if variant == "title-format-callable" else []))})
                 V[v].name = v
             L = []
             for i, (lc, p, q) in enumerate(links):
@@ -357,8 +367,17 @@ def resolve_rule(ctx, h, res):
         opts = DictV([[gg[c], DictV([["marker", c]])] for c in configured])
         try:
             out = h.call(f, gg[cls], opts)
-        except Unknown as u:
-            res.undecide(f"_resolve_options({cls}, {configured}): {u}")
+            if out.kind == "raise":
+                # a private helper: a tree may hand it the object instead of its class (every caller adapted).  The rows are asked
+                # that way then; if the helper answers neither, its contract is another one and the rows are not evaluated (the
+                # scenarios above decide the same clause through render_to_plantuml_src)
+                out2 = h.call(f, h.I.call(gg[cls], [], {}), opts)
+                if out2.kind == "raise":
+                    res.note(f"_resolve_options answers neither (class, options) nor (object, options) for {cls}: RESOLVE rows not evaluated, the clause is decided by the scenarios")
+                    continue
+                out = out2
+        except (Unknown, Raised) as u:
+            res.note(f"_resolve_options({cls}, {configured}) not evaluated: {u}")
             continue
         n += 1
         if want is None:
